@@ -144,6 +144,7 @@ type Sim struct {
 
 	mu       quietMutex
 	vmu      quietMutex
+	uuidSeq  atomic.Int64
 	rootGoid int64
 	tasks    map[int64]*Task
 	all      []*Task
